@@ -64,7 +64,7 @@ fn c08_list_element() {
 
 #[kani::proof]
 #[kani::stub(alloc::fmt::format, stub_format)]
-#[kani::unwind(4)]
+#[kani::unwind(8)]
 fn c08_map_key_value() {
     let c: [u8; 2] = kani::any();
     kani::assume(c[0] < N_CAT && c[1] < N_CAT && c[0] != CAT_UNRESOLVED);
